@@ -7,10 +7,7 @@ class sources(DataStreamProcessor):
 
     def __init__(self, *sources):
         super().__init__()
-        self.sources: DataStream = [
-            Flow(s).datastream()
-            for s in sources
-        ]
+        self.source_links = sources
 
     def process_resources(self, resources):
         yield from super().process_resources(resources)
@@ -21,6 +18,10 @@ class sources(DataStreamProcessor):
 
     def process_datapackage(self, dp: Package):
         super().process_datapackage(dp)
+        self.sources: DataStream = [
+            Flow(s).datastream()
+            for s in self.source_links
+        ]
         descriptor = dp.descriptor
         source: DataStream
         for source in self.sources:
